@@ -43,6 +43,12 @@ Definition OF_FRAME : nat := EmitFacts.of_frame_size.
 
 Definition tmpA : nat := 0.
 Definition tmpB : nat := 1.
+Definition tmpI : nat := 2.      (* the i32 scratch local of emit_switch *)
+Definition FOR_OF_FRAME : nat := EmitFacts.for_of_frame_size.
+(* the slot of the item of the innermost `for .. of` (the placeholder `$`, `#`,
+   `@`, `!`) is kept in the identifier environment under a reserved key that
+   no identifier of a condition uses *)
+Definition cur_key : nat := 4999.
 
 Inductive ty := TBool | TInt.
 Definition ty_eqb (a b : ty) : bool := match a, b with TBool, TBool | TInt, TInt => true | _, _ => false end.
@@ -80,8 +86,12 @@ Definition runs (l : list nat) : list (nat * nat) :=
 Definition consecutive_ids (l : list nat) : bool :=
   match runs l with [_] => true | _ => false end.
 
+(* a frame of n more slots fits *)
+Definition fits (sp n : nat) : option ty :=
+  if Nat.leb (sp + n) (Z.to_nat MAX_VARS) then Some TBool else None.
+
 (* the type of an expression of the fragment; None: outside the fragment *)
-Fixpoint tyof (g : cenv) (sp : nat) (e : expr) : option ty :=
+Fixpoint tyof (g : cenv) (sp : nat) (e : expr) {struct e} : option ty :=
   match e with
   | EBool _ => Some TBool
   | EInt _ => Some TInt
@@ -114,7 +124,73 @@ Fixpoint tyof (g : cenv) (sp : nat) (e : expr) : option ty :=
   | EOffset (PId _) i | ELength (PId _) i => match tyof g sp i with Some TInt => Some TInt | _ => None end
   | EOf QAny _ (_ :: _) ANone _ _ | EOf QAll _ (_ :: _) ANone _ _ => Some TBool
   | EOf QExpr q ((_ :: _) as set) ANone _ _ =>
-      match tyof g sp q with Some TInt => if consecutive_ids set then Some TBool else None | _ => None end
+      match tyof g sp q with
+      | Some TInt => if consecutive_ids set then Some TBool else fits sp OF_FRAME
+      | _ => None
+      end
+  (* the other shapes of `of` over a pattern set are emitted as a loop *)
+  | EOf QNone _ (_ :: _) ANone _ _ => fits sp OF_FRAME
+  | EOf qk q (_ :: _) AAt a1 _ =>
+      match (match qk with QExpr => tyof g sp q | QPct => None | _ => Some TInt end), tyof g sp a1 with
+      | Some TInt, Some TInt => fits sp OF_FRAME
+      | _, _ => None
+      end
+  | EOf qk q (_ :: _) AIn a1 a2 =>
+      match (match qk with QExpr => tyof g sp q | QPct => None | _ => Some TInt end), tyof g sp a1, tyof g sp a2 with
+      | Some TInt, Some TInt, Some TInt => fits sp OF_FRAME
+      | _, _, _ => None
+      end
+  (* the placeholders of `for .. of` *)
+  | EPat PCur ak a1 a2 =>
+      match clookup cur_key g with
+      | Some (_, TInt) =>
+          match ak with
+          | ANone => Some TBool
+          | AAt => match tyof g sp a1 with Some TInt => Some TBool | _ => None end
+          | AIn => match tyof g sp a1, tyof g sp a2 with Some TInt, Some TInt => Some TBool | _, _ => None end
+          end
+      | _ => None
+      end
+  | ECount PCur rg lo hi =>
+      match clookup cur_key g with
+      | Some (_, TInt) =>
+          if rg then match tyof g sp lo, tyof g sp hi with Some TInt, Some TInt => Some TInt | _, _ => None end
+          else Some TInt
+      | _ => None
+      end
+  | EOffset PCur i | ELength PCur i =>
+      match clookup cur_key g, tyof g sp i with Some (_, TInt), Some TInt => Some TInt | _, _ => None end
+  | EForOf qk q (_ :: _) body =>
+      match (match qk with QExpr => tyof g sp q | QPct => None | _ => Some TInt end) with
+      | Some TInt =>
+          match fits sp FOR_OF_FRAME,
+                tyof ((cur_key, ((sp + 4)%nat, TInt)) :: g) (sp + FOR_OF_FRAME)%nat body with
+          | Some TBool, Some TBool => Some TBool
+          | _, _ => None
+          end
+      | _ => None
+      end
+  | EOfB qk q ((ECons _ _) as items) =>
+      match (match qk with QExpr => tyof g sp q | QPct => None | _ => Some TInt end) with
+      | Some TInt =>
+          match fits sp OF_FRAME with
+          | Some TBool => if tyof_all g (sp + OF_FRAME)%nat TBool items then Some TBool else None
+          | _ => None
+          end
+      | _ => None
+      end
+  | EForTuple qk q x ((ECons i0 _) as items) body =>
+      match (match qk with QExpr => tyof g sp q | QPct => None | _ => Some TInt end), tyof g sp i0 with
+      | Some TInt, Some t =>
+          if tyof_all g sp t items then
+            match fits sp FOR_IN_FRAME,
+                  tyof ((x, ((sp + 5)%nat, t)) :: g) (sp + FOR_IN_FRAME)%nat body with
+            | Some TBool, Some TBool => Some TBool
+            | _, _ => None
+            end
+          else None
+      | _, _ => None
+      end
   | EForRange qk q x lo hi body =>
       match qk with
       | QPct => None
@@ -136,6 +212,34 @@ Fixpoint tyof (g : cenv) (sp : nat) (e : expr) : option ty :=
       | None => None
       end
   | _ => None
+  end
+with tyof_all (g : cenv) (sp : nat) (t : ty) (es : exprs) {struct es} : bool :=
+  match es with
+  | ENil => true
+  | ECons e r => match tyof g sp e with Some t' => ty_eqb t t' | None => false end && tyof_all g sp t r
+  end.
+
+(* the part of the fragment for which EmitProofs.emit_correct is proved (and
+   whose code Check.v also runs on the machine): everything [tyof] types but
+   the constructs emitted through emit_switch - `of` over a pattern set when it
+   needs a loop, `of` over a tuple, `for .. of` with its placeholders, `for ..
+   in` over a tuple - whose code is only compared with the emitted WebAssembly *)
+Fixpoint frag1 (e : expr) : bool :=
+  match e with
+  | EBool _ | EInt _ | EFilesize | EVar _ | EGlobal _ | ERule _ => true
+  | ENot a | EDefined a | ENeg a | EBitNot a | ERead _ a => frag1 a
+  | EOffset (PId _) a | ELength (PId _) a => frag1 a
+  | EAnd a b | EOr a b | EArith _ a b | ECmp _ a b | EWith _ a b => frag1 a && frag1 b
+  | EPat (PId _) ANone _ _ => true
+  | EPat (PId _) AAt a _ => frag1 a
+  | EPat (PId _) AIn a b => frag1 a && frag1 b
+  | ECount (PId _) false _ _ => true
+  | ECount (PId _) true a b => frag1 a && frag1 b
+  | EOf QExpr q set ANone _ _ => frag1 q && consecutive_ids set
+  | EOf QAny _ _ ANone _ _ | EOf QAll _ _ ANone _ _ => true
+  | EForRange qk q _ lo hi body =>
+      match qk with QExpr => frag1 q | _ => true end && frag1 lo && frag1 hi && frag1 body
+  | _ => false
   end.
 
 (* ------------------------------------------------- exceptions for undefined *)
@@ -251,6 +355,66 @@ Definition code_and (c : option (list instr)) : list instr :=
 Definition code_or (c : option (list instr)) : list instr :=
   match c with Some c => c | None => [IConst (V32 0)] end.
 
+(* ---------------------------------------------------------------- emit_switch *)
+Fixpoint deepen (k : nat) (h : handler) : handler :=
+  match k with O => h | S k' => deeper (deepen k' h) end.
+(* the blocks around the branches but the last: each is followed by a jump out
+   of the outermost block *)
+Fixpoint switch_wrap (cur : list instr) (mid : list (list instr)) (d : nat) : list instr :=
+  match mid with
+  | [] => cur
+  | b :: t => switch_wrap [IBlock 0 (cur ++ [IBlock 1 b; IBr d])] t (d - 1)%nat
+  end.
+(* selector (an i64) on the stack -> the value of the selected branch *)
+Definition switch (branches : list (list instr)) : list instr :=
+  let n := length branches in
+  [IUn I32WrapI64; ILocalSet tmpI] ++
+  match rev branches with
+  | [] => [IUnreachable]
+  | last :: rmid =>
+      [IBlock 1
+         (switch_wrap [IBlock 0 [IBlock 0 [ILocalGet tmpI; IBrTable (seq 1 n) 0]; IUnreachable]] (rev rmid) (n - 1)%nat
+          ++ [IBlock 1 last])]
+  end.
+(* the handler in force inside branch k of n, given the one around the switch *)
+Definition branch_handler (n k : nat) (h : handler) : handler := deepen (n + 1 - k)%nat h.
+
+(* ------------------------------------------------------------------- emit_for *)
+(* incr_i_and_repeat: [after] is the loop's own step (the next item of a range) *)
+Definition repeat_gen (after : list instr) (sp : nat) (hh : handler) (lbl : nat) : list instr :=
+  after ++ incr_var (S sp) hh ++ load_var (S sp) TInt hh ++ load_var sp TInt hh ++ [IBin I64LtS; IBrIf lbl].
+Definition arm_gen (after : handler -> list instr) (sp : nat) (h : handler) (qk : qkind) : list instr :=
+  let h2 := deeper (deeper h) in let h3 := deeper h2 in
+  match qk with
+  | QNone => [IIf 1%nat [IConst (V32 0); IBr 2%nat] (repeat_gen (after h3) sp h3 1%nat ++ [IConst (V32 1); IBr 2])]
+  | QAll => [IIf 1 (repeat_gen (after h3) sp h3 1%nat ++ [IConst (V32 1); IBr 2]) [IConst (V32 0); IBr 2]]
+  | QAny => [IIf 1 [IConst (V32 1); IBr 2] (repeat_gen (after h3) sp h3 1%nat ++ [IConst (V32 0); IBr 2])]
+  | _ =>
+      [IIf 0
+         (incr_var (S (S (S sp))) h3 ++ load_var (S (S (S sp))) TInt h3 ++ load_var (S (S sp)) TInt h3 ++
+          [IBin EmitFacts.for_expr_reached;
+           IIf 0 (load_var (S (S sp)) TInt (deeper h3) ++ [IConst (V64 0); IBin EmitFacts.for_expr_exit_value; IBr 3]) []])
+         []]
+      ++ repeat_gen (after h2) sp h2 0%nat
+      ++ load_var (S (S sp)) TInt h2 ++ [IUn I64Eqz]
+  end.
+(* emit_for with the frame n, i, max_count, count at sp .. sp+3 *)
+Definition for_gen (sp : nat) (h : handler) (qk : qkind) (qcode : handler -> list instr)
+                   (init : handler -> list instr) (before : handler -> list instr)
+                   (bodyc : handler -> list instr) (after : handler -> list instr) : list instr :=
+  [IBlock 1
+     (init (deeper h)
+      ++ set_var (S sp) TInt [IConst (V64 0)]
+      ++ (match qk with
+          | QExpr => set_var (S (S sp)) TInt (qcode (deeper h)) ++ set_var (S (S (S sp))) TInt [IConst (V64 0)]
+          | _ => []
+          end)
+      ++ [ILoop 1 (before (deeper (deeper h)) ++ catch_undef 1 bodyc [IConst (V32 0)] ++ arm_gen after sp h qk)])].
+(* the i-th pattern id of a set, into the item variable *)
+Definition next_pattern (sp : nat) (ids : list nat) (hh : handler) : list instr :=
+  set_var (sp + 4)%nat TInt (load_var (S sp) TInt hh ++ switch (map (fun id => [IConst (V64 (Z.of_nat id))]) ids)).
+Definition set_count (sp n : nat) : list instr := set_var sp TInt [IConst (V64 (Z.of_nat n))].
+
 Section Emit.
   (* emit_expr.  g: identifiers in scope; sp: number of variable slots in use;
      h: the innermost handler for undefined values *)
@@ -343,14 +507,85 @@ Section Emit.
         search_check ++ [IConst (V32 (Z.of_nat i))] ++ emit g sp h idx ++ call_handle_undef HOffset h
     | ELength (PId i) idx =>
         search_check ++ [IConst (V32 (Z.of_nat i))] ++ emit g sp h idx ++ call_handle_undef HLength h
-    | EOf qk q set ANone _ _ =>
+    | EOf qk q set ak a1 a2 =>
+        (* emit_of_pattern_set_with_loop *)
+        let of_loop :=
+          for_gen sp h qk (fun h1 => emit g sp h1 q)
+            (fun _ => set_count sp (length set)) (next_pattern sp set)
+            (fun h' =>
+               load_var (sp + 4)%nat TInt h' ++ [IUn I32WrapI64] ++
+               match ak with
+               | ANone => [ICall HCheckMatch]
+               | AAt => emit g sp h' a1 ++ [ICall HMatchAt]
+               | AIn => emit g sp h' a1 ++ emit g sp h' a2 ++ [ICall HMatchIn]
+               end)
+            (fun _ => []) in
         search_check ++
-        match qk with
-        | QAny => [IBlock 1 (of_runs false (runs set))]
-        | QAll => [IBlock 1 (of_runs true (runs set))]
-        | QExpr => match runs set with [r] => range_call r (emit g sp h q) | _ => [IUnreachable] end
-        | _ => [IUnreachable]
+        match ak, qk with
+        | ANone, QAny => [IBlock 1 (of_runs false (runs set))]
+        | ANone, QAll => [IBlock 1 (of_runs true (runs set))]
+        | ANone, QExpr => match runs set with [r] => range_call r (emit g sp h q) | _ => of_loop end
+        | _, _ => of_loop
         end
+    | EPat PCur ak a1 a2 =>
+        match clookup cur_key g with
+        | Some (slot, _) =>
+            search_check ++ load_var slot TInt h ++ [IUn I32WrapI64] ++
+            match ak with
+            | ANone => [ICall HCheckMatch]
+            | AAt => emit g sp h a1 ++ [ICall HMatchAt]
+            | AIn => emit g sp h a1 ++ emit g sp h a2 ++ [ICall HMatchIn]
+            end
+        | None => [IUnreachable]
+        end
+    | ECount PCur rg lo hi =>
+        match clookup cur_key g with
+        | Some (slot, _) =>
+            search_check ++ load_var slot TInt h ++ [IUn I32WrapI64] ++
+            (if rg then emit g sp h lo ++ emit g sp h hi ++ [ICall HMatchesIn] else [ICall HMatches])
+        | None => [IUnreachable]
+        end
+    | EOffset PCur idx =>
+        match clookup cur_key g with
+        | Some (slot, _) =>
+            search_check ++ load_var slot TInt h ++ [IUn I32WrapI64] ++ emit g sp h idx ++ call_handle_undef HOffset h
+        | None => [IUnreachable]
+        end
+    | ELength PCur idx =>
+        match clookup cur_key g with
+        | Some (slot, _) =>
+            search_check ++ load_var slot TInt h ++ [IUn I32WrapI64] ++ emit g sp h idx ++ call_handle_undef HLength h
+        | None => [IUnreachable]
+        end
+    | EForOf qk q set body =>
+        for_gen sp h qk (fun h1 => emit g sp h1 q)
+          (fun _ => set_count sp (length set)) (next_pattern sp set)
+          (fun h' => emit_bool ((cur_key, ((sp + 4)%nat, TInt)) :: g) (sp + FOR_OF_FRAME)%nat h' body)
+          (fun _ => [])
+    | EOfB qk q items =>
+        let n := exprs_length items in
+        for_gen sp h qk (fun h1 => emit g sp h1 q)
+          (fun _ => set_count sp n)
+          (fun hh =>
+             set_var (sp + 4)%nat TBool
+               (load_var (S sp) TInt hh ++ switch (emit_items true g (sp + OF_FRAME)%nat hh n 0 items)))
+          (fun h' => load_var (sp + 4)%nat TBool h')
+          (fun _ => [])
+    | EForTuple qk q x items body =>
+        let n := exprs_length items in
+        let t := match items with
+                 | ECons i0 _ => match tyof g sp i0 with Some t => t | None => TInt end
+                 | ENil => TInt
+                 end in
+        for_gen sp h qk (fun h1 => emit g sp h1 q)
+          (fun _ => set_count sp n)
+          (fun _ =>
+             catch_undef 0
+               (fun hc => set_var (sp + 5)%nat t
+                            (load_var (S sp) TInt hc ++ switch (emit_items false g sp hc n 0 items)))
+               (set_var_undef (sp + 5)%nat true))
+          (fun h' => emit_bool ((x, ((sp + 5)%nat, t)) :: g) (sp + FOR_IN_FRAME)%nat h' body)
+          (fun _ => [])
     | EWith x d body =>
         match tyof g (S sp) d with
         | Some t =>
@@ -404,6 +639,17 @@ Section Emit.
                           ++ load_var maxc TInt h2 ++ [IUn I64Eqz]
                       end ) ] ) ]
     | _ => [IUnreachable]
+    end
+  (* the branches of a switch over a tuple: item k of n, under the handler that
+     is in force inside its block *)
+  with emit_items (as_bool : bool) (g : cenv) (sp : nat) (hh : handler) (n k : nat) (es : exprs) {struct es}
+      : list (list instr) :=
+    match es with
+    | ENil => []
+    | ECons e r =>
+        (emit g sp (branch_handler n k hh) e ++
+         (if as_bool then match tyof g sp e with Some TInt => [IConst (V64 0); IBin I64Ne] | _ => [] end else []))
+        :: emit_items as_bool g sp hh n (S k) r
     end.
 
   Definition emit_bool (g : cenv) (sp : nat) (h : handler) (e : expr) : list instr :=
